@@ -142,8 +142,9 @@ func VerifC18_Sequences() {
 		case kind <= 6:
 			b.op(kind, b.mapS, b.dskS, b.ref)
 		case kind == 7: // replace-with(other store built by two operations)
-			om, err1 := b.mapF.CreateStore("id", true)
-			od, err2 := b.dskF.CreateStore("id", true)
+			otherID := []string{"id", "other"}[verifrt.Choose(2)] // the replacing store may have been created under another name
+			om, err1 := b.mapF.CreateStore(otherID, true)
+			od, err2 := b.dskF.CreateStore(otherID, true)
 			verifrt.Assert(err1 == nil && err2 == nil, "staging stores created")
 			oref := &refStore{}
 			b.op(0, om, od, oref)
